@@ -9,6 +9,7 @@ import (
 	"fmt"
 	"go/types"
 	"math"
+	"math/bits"
 	"os"
 	"os/exec"
 	"strings"
@@ -136,6 +137,59 @@ func cmdSelftest(args []string) int {
 		check("f32->uint32", ev(in.floatToInt(ft32, 32, types.Uint32)), uint64(uint32(f32v)), f)
 		check("f32->int64", ev(in.floatToInt(ft32, 32, types.Int64)), uint64(int64(f32v)), f)
 	}
+	// math/bits models vs the library
+	bm := 0
+	{
+		tp := NewTermPool()
+		x32, x64 := tp.Var("bx32", Sort{K: SBV, W: 32}), tp.Var("bx64", Sort{K: SBV, W: 64})
+		type bmodel struct {
+			name string
+			t    *Term
+			v    *Term
+			nat  func(uint64) uint64
+		}
+		models := []bmodel{
+			{"OnesCount32", bitsOnesCount(tp, x32, 32), x32, func(v uint64) uint64 { return uint64(bits.OnesCount32(uint32(v))) }},
+			{"Len32", bitsLen(tp, x32, 32), x32, func(v uint64) uint64 { return uint64(bits.Len32(uint32(v))) }},
+			{"LeadingZeros32", bitsLeadingZeros(tp, x32, 32), x32, func(v uint64) uint64 { return uint64(bits.LeadingZeros32(uint32(v))) }},
+			{"TrailingZeros32", bitsTrailingZeros(tp, x32, 32), x32, func(v uint64) uint64 { return uint64(bits.TrailingZeros32(uint32(v))) }},
+			{"Reverse32", bitsReverse(tp, x32, 32), x32, func(v uint64) uint64 { return uint64(bits.Reverse32(uint32(v))) }},
+			{"OnesCount64", bitsOnesCount(tp, x64, 64), x64, func(v uint64) uint64 { return uint64(bits.OnesCount64(v)) }},
+			{"Len64", bitsLen(tp, x64, 64), x64, func(v uint64) uint64 { return uint64(bits.Len64(v)) }},
+			{"LeadingZeros64", bitsLeadingZeros(tp, x64, 64), x64, func(v uint64) uint64 { return uint64(bits.LeadingZeros64(v)) }},
+			{"TrailingZeros64", bitsTrailingZeros(tp, x64, 64), x64, func(v uint64) uint64 { return uint64(bits.TrailingZeros64(v)) }},
+			{"Reverse64", bitsReverse(tp, x64, 64), x64, func(v uint64) uint64 { return bits.Reverse64(v) }},
+		}
+		bvals := []uint64{0, 1, 2, 3, 0x80000000, 0xFFFFFFFF, 0x7FFFFFFF, 0x8000000000000000, 0xFFFFFFFFFFFFFFFF, 0x00010000, 0x0000FFFF}
+		for i := 0; i < 64; i++ {
+			bvals = append(bvals, 1<<uint(i), (1<<uint(i))-1)
+		}
+		sd := uint64(2463534242)
+		for i := 0; i < 3000; i++ {
+			sd ^= sd << 13
+			sd ^= sd >> 7
+			sd ^= sd << 17
+			bvals = append(bvals, sd)
+		}
+		for _, m := range models {
+			for _, v := range bvals {
+				arg := v
+				if m.v == x32 {
+					arg = v & 0xFFFFFFFF
+				}
+				got, ok := evalTerm(m.t, Model{m.v.Name: arg}, map[*Term]uint64{})
+				if !ok || got != m.nat(arg) {
+					if bm < 10 {
+						fmt.Printf("BITS MODEL MISMATCH %s(%#x): model %#x native %#x\n", m.name, arg, got, m.nat(arg))
+					}
+					bm++
+				}
+			}
+		}
+		if bm > 0 {
+			fail++
+		}
+	}
 	if mism > 0 {
 		fmt.Printf("float->int model: %d mismatches on %d values\n", mism, len(vals))
 		fail++
@@ -144,6 +198,6 @@ func cmdSelftest(args []string) int {
 		fmt.Fprintf(os.Stderr, "selftest: %d failures\n", fail)
 		return 1
 	}
-	fmt.Printf("selftest ok: %d rewrite lemmas unsat at reduced width; float->int model agrees with the native build on %d values\n", len(lemmas()), len(vals))
+	fmt.Printf("selftest ok: %d rewrite lemmas unsat at reduced width; float->int model agrees with the native build on %d values; math/bits models agree with the library on boundary + 3000 pseudo-random values\n", len(lemmas()), len(vals))
 	return 0
 }
